@@ -328,7 +328,7 @@ func (fc *FnCtx) newRef(st *State, hint string) Term {
 	if r == st.alloc && !isNum(r) {
 		// keep a distinct name for readability of models
 		r = fc.vc.fresh(hint, SInt)
-		fc.vc.assert(mkEq(r, st.alloc))
+		fc.vc.assertDef(r, mkEq(r, st.alloc))
 	}
 	st.alloc = fc.vc.define("alloc", SInt, mkAdd(r, "1"))
 	return r
